@@ -28,13 +28,14 @@ type World struct {
 	funcs    map[string]*ssa.Function // key -> repo function with body
 	funcList []*ssa.Function
 
-	dtDecls    []string              // datatype declarations in dependency order
-	dtSeen     map[string]bool       //
-	heapSorts  map[string]string     // heap name -> SMT sort
-	heapMeta   map[string]types.Type // heap name -> content type (field/elem/cell type; map type for MD/MV)
-	writes     map[*ssa.Function]map[string]bool
-	externals  map[string]bool      // external callees met without contract (assumption list)
-	initNonNil map[*ssa.Global]bool // package-level vars set once, in init, to a non-nil value
+	dtDecls         []string              // datatype declarations in dependency order
+	dtSeen          map[string]bool       //
+	heapSorts       map[string]string     // heap name -> SMT sort
+	heapMeta        map[string]types.Type // heap name -> content type (field/elem/cell type; map type for MD/MV)
+	writes          map[*ssa.Function]map[string]bool
+	externals       map[string]bool      // external callees met without contract (assumption list)
+	initNonNil      map[*ssa.Global]bool // package-level vars set once, in init, to a non-nil value
+	implicitNothing bool                 // C13 run: repo functions without a modifies clause are checked against (and assumed to satisfy) `modifies nothing`
 }
 
 func qual(p *types.Package) string {
